@@ -12,23 +12,23 @@ def pycUnhookedTag : String := ""
 /-- (claw_is_pep526, claw_decor_place_func, claw_decor_place_type, conf != BEARTYPE_CONF_DEFAULT) ↦ observed tag;
     places are the BeartypeDecorPlace member values FIRST=1 LAST=2 LAST_BEFORE_DECOR_HOSTILE=3 -/
 def pycHookedTags : List ((Bool × Nat × Nat × Bool) × String) := [
-  ((true, 1, 1, true), "beartype0v23v0"),
-  ((true, 1, 2, true), "beartype0v23v0"),
-  ((true, 1, 3, true), "beartype0v23v0"),
-  ((true, 2, 1, true), "beartype0v23v0"),
-  ((true, 2, 2, true), "beartype0v23v0"),
-  ((true, 2, 3, true), "beartype0v23v0"),
-  ((true, 3, 1, true), "beartype0v23v0"),
-  ((true, 3, 2, true), "beartype0v23v0"),
-  ((true, 3, 3, true), "beartype0v23v0"),
-  ((false, 1, 1, true), "beartype0v23v0"),
-  ((false, 1, 2, true), "beartype0v23v0"),
-  ((false, 1, 3, true), "beartype0v23v0"),
-  ((false, 2, 1, true), "beartype0v23v0"),
-  ((false, 2, 2, true), "beartype0v23v0"),
-  ((false, 2, 3, true), "beartype0v23v0"),
-  ((false, 3, 1, true), "beartype0v23v0"),
-  ((false, 3, 2, true), "beartype0v23v0"),
-  ((false, 3, 3, true), "beartype0v23v0")]
+  ((true, 1, 1, true), "beartype0v23v0p1f1t1c1"),
+  ((true, 1, 2, true), "beartype0v23v0p1f1t2c1"),
+  ((true, 1, 3, true), "beartype0v23v0p1f1t3c1"),
+  ((true, 2, 1, true), "beartype0v23v0p1f2t1c1"),
+  ((true, 2, 2, true), "beartype0v23v0p1f2t2c1"),
+  ((true, 2, 3, true), "beartype0v23v0p1f2t3c1"),
+  ((true, 3, 1, true), "beartype0v23v0p1f3t1c1"),
+  ((true, 3, 2, true), "beartype0v23v0p1f3t2c1"),
+  ((true, 3, 3, true), "beartype0v23v0p1f3t3c1"),
+  ((false, 1, 1, true), "beartype0v23v0p0f1t1c1"),
+  ((false, 1, 2, true), "beartype0v23v0p0f1t2c1"),
+  ((false, 1, 3, true), "beartype0v23v0p0f1t3c1"),
+  ((false, 2, 1, true), "beartype0v23v0p0f2t1c1"),
+  ((false, 2, 2, true), "beartype0v23v0p0f2t2c1"),
+  ((false, 2, 3, true), "beartype0v23v0p0f2t3c1"),
+  ((false, 3, 1, true), "beartype0v23v0p0f3t1c1"),
+  ((false, 3, 2, true), "beartype0v23v0p0f3t2c1"),
+  ((false, 3, 3, true), "beartype0v23v0p0f3t3c1")]
 
 end BearVerif.Extracted
